@@ -182,3 +182,6 @@ def run_proofs(ctx):
                "A-lib(str.replace): on a run of signs, len(run.replace('+','')) is the number of '-' characters",
                "spec functions nonsign/parity are uninterpreted with homomorphism axioms (definitional); Token modelled by its .token text")
     run_contracts(ctx, cs, reg, workloads=workloads(), concrete_env=CONCRETE_ENV)
+    from vf.proofs.c01_ops import run_ops
+
+    run_ops(ctx)
